@@ -274,7 +274,12 @@ def make_desc(r, gdesc):
         return {"gene": gdesc, "copies": [list(c) for c in copies], "shape": "snp_in_deletion", "read_len": r.choice([75, 100, 150]), "depth": r.choice([20, 30])}
     picked = directed_copies(r, gene) if r.random() < 0.35 else None
     shape, copies = picked if picked else pick_copies(r, gene)
-    return {"gene": gdesc, "copies": [list(c) for c in copies], "shape": shape, "read_len": r.choice([50, 75, 100, 150, 250]), "depth": r.choice([20, 24, 30, 40])}
+    desc = {"gene": gdesc, "copies": [list(c) for c in copies], "shape": shape, "read_len": r.choice([50, 75, 100, 150, 250]), "depth": r.choice([20, 24, 30, 40])}
+    # some samples are genotyped without indel realignment (`_parse_read` keeps the indel support itself)
+    frac = float(os.environ.get("C01_NO_INDELPOST", "0.2"))
+    if frac and r.random() < frac:
+        desc["params"] = {"indelpost": "false"}
+    return desc
 
 
 def run_case(r, gdesc, d, k):
@@ -332,7 +337,7 @@ def run_desc(desc, d, k):
     MJ.solve_major_model, MN.solve_minor_model = w_major, w_minor
     try:
         try:
-            res = G.genotype(ypath, sbam, pbam, output_file=None, cn_region=cnr, genome=gdesc["genome"])
+            res = G.genotype(ypath, sbam, pbam, output_file=None, cn_region=cnr, genome=gdesc["genome"], **desc.get("params", {}))
             err = None
         except AldyException as e:
             res, err = {}, str(e)[:120]
